@@ -78,7 +78,10 @@ func registerFlockMmapExternals() {
 		} else {
 			f.ensureCap(e, length)
 		}
-		f.mapped = true
+		if !f.mapped {
+			f.mapped = true
+			f.takeShadow()
+		}
 		e.anyMmap = true
 		pu := e.pageUp(f.size)
 		for i := pu; i < len(f.cells); i++ {
@@ -100,6 +103,7 @@ func registerFlockMmapExternals() {
 				e.beforeMutation("msync " + p)
 				n.file.syncedLen = n.file.size
 				n.file.unsynced = nil
+				n.file.takeShadow()
 				e.log(FSOp{Kind: "sync", Path: p, N: n.file.size})
 				return Iface{}
 			}
